@@ -40,3 +40,21 @@ pub proof fn lemma_all_nn_push(l: Seq<String>, x: String)
 {
     assert forall|i: int| 0 <= i < l.push(x).len() implies nn(#[trigger] l.push(x)[i]@) by { if i < l.len() { assert(l.push(x)[i] == l[i]); } }
 }
+
+// removing two characters: the order does not matter
+pub proof fn lemma_without_commute(s: Seq<char>, a: char, b: char)
+    ensures without_char(without_char(s, a), b) == without_char(without_char(s, b), a),
+    decreases s.len()
+{
+    if s.len() > 0 {
+        lemma_without_commute(s.drop_last(), a, b);
+        let t = s.drop_last(); let l = s.last();
+        if l == a || l == b {
+            if l == a && l != b { assert(without_char(t, b).push(l).drop_last() =~= without_char(t, b)); }
+            if l == b && l != a { assert(without_char(t, a).push(l).drop_last() =~= without_char(t, a)); }
+        } else {
+            assert(without_char(t, a).push(l).drop_last() =~= without_char(t, a));
+            assert(without_char(t, b).push(l).drop_last() =~= without_char(t, b));
+        }
+    }
+}
